@@ -1082,6 +1082,28 @@ Section Nested.
   End Level.
 
   (* ---- every nesting depth --------------------------------------------------------------------------------- *)
+  Lemma emit_id_suppressed : forall sub i u, tr u = tr i -> u <> "" ->
+    emit_node_with kw rename infun None None rm [] sub (Node "" "Identity" [Some i] [u] [] []) = Some [].
+  Proof.
+    intros sub i u E Hne. unfold emit_node_with. cbn [inl_drop].
+    change (String.eqb "Identity" "If") with false. change (String.eqb "Identity" "Loop") with false.
+    change (String.eqb "Identity" "Scan") with false. cbv iota. cbn [is_nil negb].
+    unfold emit_node. change (negb (String.eqb "" "") || is_cf "Identity" || negb (is_nil (@nil (string * graph))) || existsb is_other []) with false.
+    cbv iota. unfold suppressed_identity. change (String.eqb "Identity" "Identity") with true. cbn [andb out_names in_name].
+    assert (is_empty u = false) as -> by (apply String.eqb_neq; exact Hne).
+    rewrite E, String.eqb_refl. reflexivity.
+  Qed.
+
+  Lemma emit_nodes_tail : forall fu ns i u sb,
+    emit_nodes kw rename infun None None rm [] fu (ns ++ [Node "" "Identity" [Some i] [u] [] []])%list = Some sb ->
+    tr u = tr i -> u <> "" -> emit_nodes kw rename infun None None rm [] fu ns = Some sb.
+  Proof.
+    intros [|fu] ns i u sb H E Hne; [discriminate H|]. cbn [emit_nodes] in *. rewrite emit_all_app in H.
+    destruct (emit_all (emit_node_with kw rename infun None None rm []
+                (fun g : graph => if is_nil (g_inits g) then emit_nodes kw rename infun None None rm [] fu (g_nodes g) else None)) ns) as [s1|]; [|discriminate].
+    cbn [emit_all] in H. rewrite (emit_id_suppressed _ i u E Hne) in H. cbn [app] in H. rewrite app_nil_r in H. exact H.
+  Qed.
+
   Notation eval_graph := (eval_graph V sem truth trip of_nat of_bool limit).
 
   Theorem nodes_corr : forall d ns D Dfin ss fp' fg',
@@ -1092,14 +1114,16 @@ Section Nested.
   Proof.
     induction d as [|d IH]; intros ns D Dfin ss fp' fg' He Hw Hp Hg.
     - cbn [emit_nodes] in He. cbn [wf_cf] in Hw.
-      apply (list_corr fp' (eval_graph fg') (emit_nodes kw rename infun None None rm [] 0) (wf_cf kw rename rm NN 0)); [|exact Hw|exact He].
-      intros D0 ns0 sb Db H0. cbn [emit_nodes] in H0. discriminate H0.
+      apply (list_corr fp' (eval_graph fg') (emit_nodes kw rename infun None None rm [] 0) (wf_cf kw rename rm NN 0)); [| |exact Hw|exact He].
+      + intros D0 ns0 sb Db H0. cbn [emit_nodes] in H0. discriminate H0.
+      + apply emit_nodes_tail.
     - destruct fp' as [|fp'']; [lia|]. destruct fg' as [|fg'']; [lia|].
       change (emit_nodes kw rename infun None None rm [] (S (S d)) ns)
         with (emit_all (emit_node_with kw rename infun None None rm [] (esub (emit_nodes kw rename infun None None rm [] (S d)))) ns) in He.
       change (wf_cf kw rename rm NN (S (S d)) D ns) with (wf_list kw rename rm NN (wf_cf kw rename rm NN (S d)) D ns) in Hw.
-      apply (list_corr (S fp'') (eval_graph (S fg'')) (emit_nodes kw rename infun None None rm [] (S d)) (wf_cf kw rename rm NN (S d))); [|exact Hw|exact He].
-      intros D0 ns0 sb Db H0 H1. apply (IH ns0 D0 Db sb fp'' fg'' H0 H1); lia.
+      apply (list_corr (S fp'') (eval_graph (S fg'')) (emit_nodes kw rename infun None None rm [] (S d)) (wf_cf kw rename rm NN (S d))); [| |exact Hw|exact He].
+      + intros D0 ns0 sb Db H0 H1. apply (IH ns0 D0 Db sb fp'' fg'' H0 H1); lia.
+      + apply emit_nodes_tail.
   Qed.
 End Nested.
 
@@ -1118,6 +1142,10 @@ Section MainCF.
   Variable kw : list string.
   Variable prename rename : vname -> string.
   Variable infun : bool.
+  (* used by the counted Loop form only: the pass-through `cond_out = Identity(cond_in)` of the body and the constant
+     true condition of a Loop without condition input *)
+  Hypothesis sem_identity : forall v, sem "" "Identity" [] [Some v] = Some [v].
+  Hypothesis truth_of_bool : forall b, truth (of_bool b) = Some b.
 
   Theorem export_cf_sound : forall fname ivals g f sk,
     export_cf kw prename rename infun None None false fname ivals g = Some (f, sk) ->
@@ -1185,7 +1213,7 @@ Section MainCF.
     match type of En with emit_nodes _ _ _ _ _ _ _ (S ?d) _ = _ => set (d0 := d) in * end.
     destruct (wf_cf kw rename rm NN (S d0) (ins ++ inits)%list nodes) as [Dfin|] eqn:Ewf; [|discriminate].
     rewrite forallb_forall in K10.
-    destruct (nodes_corr V sem truth trip of_nat of_bool limit globals kw rename infun rm NN tr_inj none_free
+    destruct (nodes_corr V sem truth trip of_nat of_bool limit globals kw rename infun rm NN tr_inj none_free sem_identity truth_of_bool
                 d0 nodes (ins ++ inits)%list Dfin sn fp fg En Ewf ltac:(lia) ltac:(lia)) as (_ & _ & NR).
     specialize (NR e0 (rev_bind V t outer pe1) [SReturn (map (fun o => EVar (t o)) outs)] I0 HD0).
     change (Sem.eval_graph V sem truth trip of_nat of_bool limit (S fg)) with (Sem.eval_body V sem truth trip of_nat of_bool limit (Sem.eval_graph V sem truth trip of_nat of_bool limit fg)).
@@ -1202,7 +1230,8 @@ Require Import OV.Gen.ExportTables.
 
 (* ---- concrete witnesses (integers as tensors: a value is true when positive) ---------------------------------- *)
 Definition zsem2 (dom op : string) (attrs : list (string * attrv)) (args : list (option Z)) : option (list Z) :=
-  if String.eqb op "Pow" then match args with [Some a; Some b] => Some [Z.pow a b] | _ => None end else zsem dom op attrs args.
+  if String.eqb op "Pow" then match args with [Some a; Some b] => Some [Z.pow a b] | _ => None end else
+  if String.eqb op "Identity" then match args with [Some a] => Some [a] | _ => None end else zsem dom op attrs args.
 Definition ztruth (z : Z) : option bool := Some (Z.ltb 0 z).
 Definition zscript2 (f : func) (xs : list Z) : option (list Z) :=
   eval_script Z zsem2 ztruth (fun z => Some (Z.to_nat z)) Z.of_nat 10 [] 4 f xs.
@@ -1286,3 +1315,28 @@ Theorem export_inlined_source_repaired :
   exists f, export_cf kwlist (cleanup kwlist) (cleanup kwlist) false None (Some repaired_fx) false "g" [] g_const_out = Some (f, []) /\
             f_body f = [SAssign "t" (ECall (COp "Neg") [Some (EVar "x")] []); SReturn [EVar "t"; ELit (LInt 3%Z)]].
 Proof. eexists. split; vm_compute; reflexivity. Qed.
+
+(* non-vacuity for the counted Loop form: `for i in range(n)` with the iteration number used and the condition passed
+   through by the last node of the body *)
+Definition g_for : graph :=
+  Graph ["x"; "n"] []
+    [Node "" "Loop" [Some "n"; None; Some "x"] ["y.0"] []
+       [("body", Graph ["i"; "c"; "s"] []
+                   [Node "" "Add" [Some "s"; Some "x"] ["s1"] [] [];
+                    Node "" "Add" [Some "s1"; Some "i"] ["s2"] [] [];
+                    Node "" "Identity" [Some "c"] ["c2"] [] []]
+                   ["c2"; "s2"])]] ["y.0"].
+Definition f_for : func :=
+  {| f_name := "g"; f_tparams := ["x"; "n"]; f_aparams := [];
+     f_body := [SAssign "s" (EVar "x");
+                SFor "i" (EVar "n") [SAssign "s1" (ECall (COp "Add") [Some (EVar "s"); Some (EVar "x")] []);
+                                     SAssign "s2" (ECall (COp "Add") [Some (EVar "s1"); Some (EVar "i")] []);
+                                     SAssign "s" (EVar "s2")];
+                SAssign "y_0" (EVar "s");
+                SReturn [EVar "y_0"]] |}.
+Theorem export_for_example :
+  nested_okb kwlist (cleanup kwlist) (cleanup kwlist) true [] g_for = true /\
+  export_cf kwlist (cleanup kwlist) (cleanup kwlist) true None None false "g" [] g_for = Some (f_for, []) /\
+  zscript2 f_for [5%Z; 3%Z] = Some [23%Z] /\ zgraph2 [] g_for [5%Z; 3%Z] = Some [23%Z] /\
+  zscript2 f_for [5%Z; 0%Z] = Some [5%Z] /\ zgraph2 [] g_for [5%Z; 0%Z] = Some [5%Z].
+Proof. vm_compute. repeat split. Qed.
